@@ -13,6 +13,17 @@ FeatReg(t, m) == [Feat(t, m, "none", FALSE, FALSE, FALSE) EXCEPT !.register = TR
 \* SASL 2 with inline features: bind2 ("plain": no inline feature, "sm": stream management inline) and resumption
 Feat2(s2, b2, r2) == [tls |-> "absent", mechs |-> "none", s2 |-> s2, b2 |-> b2, r2 |-> r2, legacy |-> FALSE, bind |-> FALSE, sm |-> FALSE, register |-> FALSE]
 
+\* The thorough generation runs in shards (one TLC process each): every emitted behaviour is a
+\* distinct JSON string that TLC interns for the life-time of the process, several gigabytes per
+\* million transitions.
+ShardCfgs(t, s2) == {cf \in PlainCfgs : cf.tls = t /\ cf.sasl2 = s2}
+ShardDF == ShardCfgs("Disabled", FALSE)
+ShardDT == ShardCfgs("Disabled", TRUE)
+ShardEF == ShardCfgs("Enabled", FALSE)
+ShardET == ShardCfgs("Enabled", TRUE)
+ShardRF == ShardCfgs("Required", FALSE)
+ShardRT == ShardCfgs("Required", TRUE)
+
 \* every combination: 3*4*3*3*2*2*2*2*2 = 3456 feature elements
 AllFeatureSets ==
     {[tls |-> t, mechs |-> m, s2 |-> s2, b2 |-> b2, r2 |-> r2, legacy |-> l, bind |-> b, sm |-> sm, register |-> rg] :
